@@ -589,6 +589,41 @@ func genC08(c *Ctx) {
 				}
 			}
 		}
+		// deprecated ids that carry an exception in their name, bare, against both spellings WITH a related exception
+		if strings.HasPrefix(x, "GPL-") || strings.HasPrefix(x, "LGPL-") {
+			for _, d := range tDeprec {
+				if !(strings.Contains(d, "-with-") || d == "eCos-2.0" || d == "wxWindows") {
+					continue
+				}
+				var es []string
+				for _, e := range tExcs {
+					for _, word := range []string{"classpath", "ecos", "wxwindows", "gcc", "autoconf", "bison", "font"} {
+						if strings.Contains(strings.ToLower(d), word) && strings.Contains(strings.ToLower(e), word) {
+							es = append(es, e)
+						}
+					}
+				}
+				es = append(es, tExcs[c.rng.Intn(len(tExcs))])
+				for _, e := range uniq(es) {
+					for _, pr := range [][2]int{{0, 1}, {2, 3}} {
+						a, b := sp[pr[0]]+" WITH "+e, sp[pr[1]]+" WITH "+e
+						if c.V(a) != "1" || c.V(b) != "1" {
+							continue
+						}
+						for _, dd := range []string{d, d + "+"} {
+							r1, r2 := c.S(dd, []string{a}), c.S(dd, []string{b})
+							if r1 != unknown && r2 != unknown && r1 != r2 {
+								c.fail("Satisfies", map[string]interface{}{"expression": dd, "allowed": []string{a}, "allowed_variant": []string{b}}, r1+" vs "+r2, "equal", "replacing one spelling of the pair by the other in the allowed list (expression: a deprecated id that names an exception)")
+							}
+							r1, r2 = c.S(a, []string{dd}), c.S(b, []string{dd})
+							if r1 != unknown && r2 != unknown && r1 != r2 {
+								c.fail("Satisfies", map[string]interface{}{"expression": a, "expression_variant": b, "allowed": []string{dd}}, r1+" vs "+r2, "equal", "replacing one spelling of the pair by the other in the expression (allowed: a deprecated id that names an exception)")
+							}
+						}
+					}
+				}
+			}
+		}
 		for _, pr := range [][2]int{{0, 1}, {2, 3}} {
 			a, b := sp[pr[0]], sp[pr[1]]
 			if v[pr[0]] != "1" || v[pr[1]] != "1" {
